@@ -6,11 +6,13 @@ LEVEL = cc.LEVEL
 BUILDS = cc.BUILDS
 CASE_TIMEOUT = cc.CASE_TIMEOUT
 LEAN_MODULES = ['AsynqModel.Theorems.C04', 'AsynqModel.Theorems.Acyclic', 'AsynqModel.Theorems.SpecC04', 'AsynqModel.Theorems.C04b']
-THEOREMS = ["AsynqModel.Core." + n for n in ['C04_ctl_shape', 'C04_settled_at_flush', 'C04_settled_at_flush_step', 'C04_settled_stable', 'C04_no_item_completes_between_flushes', 'C04_flush_only_when_stack_at_base', 'C04_static', 'C04_settled_at_flush_static', 'C04_settled_stable_static', 'C04_no_item_completes_between_flushes_static', 'C04_flush_only_when_stack_at_base_static', 'C04_settledB_sound', 'C04_run_reach', 'C04_dagRun_reach', 'Spec_C04_accepts_settled', 'Spec_C04_accepts_settled_run', 'Spec_C04_only_count', 'Spec_C04_accepts_untreed', 'Spec_C04_accepts_sync', 'Spec_C04_settled_link', 'Spec_C04_watch_agrees', 'Spec_C04_fuel', 'C04_flush_count', 'C04_flush_count_run', 'C04_flush_count_state', 'Spec_C04_flush_count_accepts', 'C04b_nonasync_counterexample', 'C04b_guard_counterexample', 'C04b_shared_counterexample', 'C04b_two_kinds_counterexample']]
+THEOREMS = ["AsynqModel.Core." + n for n in ['C04_ctl_shape', "C04_settled_at_flush_min", "C04_settled_at_flush_step_min", 'C04_settled_stable', 'C04_no_item_completes_between_flushes', 'C04_flush_only_when_stack_at_base', 'C04_static', 'C04_settled_at_flush_static', 'C04_settled_stable_static', 'C04_no_item_completes_between_flushes_static', 'C04_flush_only_when_stack_at_base_static', 'C04_settledB_sound', 'C04_run_reach', 'C04_dagRun_reach', 'Spec_C04_accepts_settled', 'Spec_C04_accepts_settled_run', 'Spec_C04_only_count', 'Spec_C04_accepts_untreed', 'Spec_C04_accepts_sync', 'Spec_C04_settled_link', 'Spec_C04_watch_agrees', 'Spec_C04_fuel', 'C04_flush_count', 'C04_flush_count_run', 'C04_flush_count_state', 'Spec_C04_flush_count_accepts', 'C04b_nonasync_counterexample', 'C04b_guard_counterexample', 'C04b_shared_counterexample', 'C04b_two_kinds_counterexample']]
 LEAN_MODULES = LEAN_MODULES + ['AsynqModel.Theorems.AuditFixes']
 THEOREMS = THEOREMS + ["AsynqModel.Core." + n for n in ['roundsTop_chain', 'roundsTop_depChain', 'roundsTop_tree', 'C04_chain_flushes', 'C04_depChain_flushes', 'C04_tree_one_flush']]
 LEAN_MODULES = LEAN_MODULES + ['AsynqModel.Theorems.NoNA']
 THEOREMS = THEOREMS + ["AsynqModel.Core." + n for n in ['C04_settled_at_flush_any', 'Spec_C04_accepts_settled_any', 'C04_settled_stable_needs_noNonAsync']]
+LEAN_MODULES = LEAN_MODULES + ['AsynqModel.Theorems.SpecC04b']
+THEOREMS = THEOREMS + ['AsynqModel.Core.Spec_C04_accepts']
 MIX = [('yield',4),('yield_err',3),('yield_ctx',2)]
 RULE = ("grammar-generated task programs (profiles %s; trees and DAGs of tasks, 1-3 batch kinds with priority overrides "
         "and raising flushes, nested yield structures, errors, try/except, synchronous re-entry, contexts) interpreted on "
